@@ -358,7 +358,39 @@ impl Hooks for H {
     }
 }
 
+/// A spelling longer than PATH_MAX whose parent part still fits (the library only hands the parent
+/// to the kernel): "./" x N + "shared/a-tmp-0001", cut at PATH_MAX it would name the sibling "shared/a"
+pub fn long_spelling_case(uni: &UniCfg, variant: u64) -> Case {
+    let mut c = Case::new("C13", "sequential", uni.clone());
+    let mut w = WorldSpec::default();
+    w.push(Entry::dir("root"));
+    w.push(Entry::file("root/shared/a/precious", "PRECIOUS"));
+    w.push(Entry::file("root/shared/a-tmp-0001/junk", "JUNK"));
+    w.push(Entry::file("root/shared/keep", "KEEP"));
+    w.push(Entry::file("outside/secret", "OUTSIDE-SECRET"));
+    let name = "a-tmp-0001";
+    // parent part of 4094 bytes: ("./" x n) + "shared" (+ one extra "/" to fix the parity)
+    let target_parent_len = 4094 - (variant as usize % 3);
+    let pad = target_parent_len - "shared".len();
+    let mut parent = "./".repeat(pad / 2);
+    if pad % 2 == 1 {
+        parent.push('/');
+    }
+    parent.push_str("shared");
+    let path = format!("{parent}/{name}");
+    let mut o = OpSpec::new(Op::RemoveAll { path });
+    if variant % 2 == 0 {
+        o = o.c();
+    }
+    c.world = Some(w);
+    c.jobs = vec![vec![o]];
+    c
+}
+
 pub fn gen_seq_case(seed: u64, idx: u64, uni: &UniCfg) -> Case {
+    if idx % 61 == 7 {
+        return long_spelling_case(uni, idx / 61);
+    }
     let mut rng = Rng::new(rng::derive(seed, "C13-seq", idx));
     let mut c = Case::new("C13", "sequential", uni.clone());
     let (world, alphabet) = if rng.chance(1, 4) {
